@@ -1,3 +1,4 @@
+mod adversary;
 mod fabric;
 mod gate;
 mod sim;
